@@ -388,6 +388,25 @@ Section Budget.
     rows <- gather s ncx y o ;;
     Ok (cut_rows (o_max o) (isort (before_u true) (trim_rows (o_trim o) (map unlabel rows)))).
 
+  (* ---------- what a declared (elementary / constant) number looks like ---------- *)
+  (* UncertainReal._elementary (Kernel.elementary): the leaf itself, with its standard
+     uncertainty -- EVEN WHEN THAT IS 0, as for one component of ucomplex(z,(u,0)) -- is the only
+     entry of the independent (resp. dependent) vector; a constant has empty vectors.  The
+     pairing loop of the complex reports relies on it: both leaves of a complex input are in
+     the vectors of everything computed from it. *)
+  Definition decl_ok (s : state) (o : ureal) : bool :=
+    match unode o with
+    | LeafRef k =>
+        match leaf_of N s k with
+        | Ok l => vec_eqb N (uc o) (if l_indep l then [(k, l_u l)] else [])
+                  && vec_eqb N (dc o) (if l_indep l then [] else [(k, l_u l)])
+                  && vec_eqb N (ic o) []
+        | Err _ => false
+        end
+    | ConstLeaf _ => vec_eqb N (uc o) [] && vec_eqb N (dc o) [] && vec_eqb N (ic o) []
+    | _ => true
+    end.
+
   (* ---------- comparing with what the implementation returned ---------- *)
   Definition olab_eqb (a b : option string) : bool :=
     match a, b with
